@@ -40,27 +40,29 @@ fn flag(args: &[String], name: &str) -> bool {
 
 fn default_runs(prop: &str, tier: &str) -> u64 {
     let quick = match prop {
-        "C01" | "C03" => 40_000,
-        "C02" => 30_000,
-        "C04" => 40_000,
-        "C05" => 40_000,
+        "C01" | "C03" => 100_000,
+        "C02" => 60_000,
+        "C04" => 100_000,
+        "C05" => 80_000,
         "C06" => 6_000,
-        "C07" => 30_000,
-        "C08" => 30_000,
-        "C09" => 20_000,
-        "C10" => 30_000,
-        "C11" => 20_000,
-        "C12" => 40_000,
-        "C13" => 20_000,
-        "C14" => 20_000,
-        "C16" => 15_000,
+        "C07" => 40_000,
+        "C08" => 100_000,
+        "C09" => 50_000,
+        "C10" => 100_000,
+        "C11" => 50_000,
+        "C12" => 100_000,
+        "C13" => 80_000,
+        "C14" => 80_000,
+        "C16" => 60_000,
         "C17" => 20_000,
         _ => 4_000,
     };
     if tier == "thorough" {
         match prop {
             "C06" => quick * 20,
-            _ => quick * 60,
+            "C07" => quick * 40,
+            "C17" => quick * 10,
+            _ => quick * 20,
         }
     } else {
         quick
